@@ -1,5 +1,9 @@
+import os
+# repairs the model expects: "cachecopy" (sector cache holds private copies), "rollbackchecked" (StoreSector rollback is conditional)
+VOLUMES_FIXES = ""
 PROP = dict(
         engine="volumes", harness="volumes", driver="drv_volumes",
+        driver_args=(os.environ.get("VERIF_VOLUMES_FIXES") or VOLUMES_FIXES).split(),
         props=["Hostd.Props.C02"],
         extra=dict(mode="data"),
         corpus_filter=r"^c02_",
